@@ -102,8 +102,9 @@ def work_lemma(args):
         obls = eng.lemma_obligations(lem)
         b = _budget(tier)
         for o in obls:
-            r = solve.solve_quick(o, z3_ms=b['z3_ms'])
+            r = solve.export_only(o) if len(obls) > 4 else solve.solve_quick(o, z3_ms=b['z3_ms'])
             rec = {'id': o.oid, 'func': o.func, 'kind': o.kind, 'label': o.label,
+                   'untried': r.get('untried', False),
                    'props': o.props, 'line': 0, 'note': o.note, 'status': r['status'],
                    'backend': r['backend'], 'time_s': round(r['time_s'], 4),
                    'model': r.get('model'), 'trace': [], 'kf': None, 'smt2': r.get('smt2')}
@@ -139,7 +140,8 @@ def run_property(prop, tier='quick', seed=0, jobs=12):
         # stage 2: obligations the short in-process z3 attempt left open
         open_ = [(o, r) for o in outs for r in o['results'] if r.get('smt2')]
         res2 = pool.map(solve.solve_text,
-                        [(r['smt2'], b['cvc5_s'], b['z3_s'], b['both']) for _, r in open_])
+                        [(r['smt2'], b['cvc5_s'], b['z3_s'], b['both'], r.get('untried'))
+                         for _, r in open_])
         for (o, r), r2 in zip(open_, res2):
             r['stage1_time_s'] = r['time_s']
             r['time_s'] = round(r['time_s'] + r2['time_s'], 4)
@@ -266,6 +268,8 @@ def run_property(prop, tier='quick', seed=0, jobs=12):
             'checker_failures': [list(x) for x in crashes][:20],
             'violations': vio_lines,
             'samples': samples,
+            'slowest': sorted([[r['time_s'], r['id'], r['backend']] for o in outs
+                               for r in o['results']], reverse=True)[:8],
             'explanation': 'contract-based deductive verification: VCs generated from the AST '
                            'of the real functions against sidecar contracts, discharged by SMT '
                            '(exit code %d)' % code,
